@@ -286,6 +286,18 @@ def abPairs : List (Cx Float) → List (Cx Float × Cx Float)
   | a :: b :: r => (a, b) :: abPairs r
   | _ => []
 
+partial def parseSpecs : List String → List (SphereSpec Rat)
+  | lay :: hc :: cx :: cy :: cz :: hr :: r :: rest =>
+      { layered := lay == "1", center := if hc == "1" then some (pQ cx, pQ cy, pQ cz) else none,
+        r := if hr == "1" then some (pQ r) else none } :: parseSpecs rest
+  | _ => []
+
+def showTheory (r : Except AutoErr TheoryName) : String :=
+  match r with
+  | .ok .mie => "Mie" | .ok .multisphere => "Multisphere" | .ok .tmatrix => "Tmatrix" | .ok .dda => "DDA"
+  | .error .invalidScatterer => "err:InvalidScatterer" | .error .autoTheoryFailed => "err:AutoTheoryFailed"
+  | .error .dependencyMissing => "err:DependencyMissing"
+
 def step (line : String) : String :=
   match (line.trimAscii.toString.splitOn " ").filter (· ≠ "") with
   -- C19 ---------------------------------------------------------------
@@ -589,6 +601,19 @@ def step (line : String) : String :=
         sFs [a.re, a.im, b.re, b.im]
       | _ => "bad-op"
   | "cumsum" :: ts => sFs (cumsumFrom 0.0 (ts.map pF))
+  -- C09 ---------------------------------------------------------------
+  | "defaulttheory" :: dda :: kind :: rest =>
+      let k : ScKind Rat := match kind with
+        | "sphere" => .sphere | "spheroid" => .spheroid | "cylinder" => .cylinder
+        | "other" => .otherScatterer | "spheres" => .spheres (parseSpecs rest) | _ => .notScatterer
+      showTheory (defaultTheory (dda == "1") k)
+  | "scsmfoargs" :: k :: nmed :: rest =>
+      let ss := (rest.map pF)
+      let rec six : List Float → List (V3 Float × Float × Float × Float)
+        | x :: y :: z :: r :: nr :: ni :: t => ((x, y, z), r, nr, ni) :: six t
+        | _ => []
+      let out := scsmfoArgs (pF k) (pF nmed) (six ss)
+      sFs (out.flatMap fun o => [o.1.1, o.1.2.1, o.1.2.2, o.2.1, o.2.2.1, o.2.2.2])
   | ["genfailures"] => toString (translationFailures ++ projTranslationFailures ++ tablesTranslationFailures)
   | _ => "bad-op"
 
